@@ -156,6 +156,9 @@ func (g *Gen) callCommon(in *ssa.Call, common *ssa.CallCommon, args []*SV, st *S
 			g.addObl("at-call", lab, implies(reach, s), pos, "assertion at call to "+ac.Callee+": "+ac.Clause.Src, ac.Clause)
 		}
 	}
+	if key == "" && in != nil {
+		g.noteCallEpochs(nil, common, st)
+	}
 	if key != "" {
 		g.lockOrder(key, common, st, reach, pos)
 		if in != nil {
@@ -631,6 +634,16 @@ func (g *Gen) noteCallEpochs(callee *ssa.Function, common *ssa.CallCommon, st *S
 			}
 		} else if common != nil && common.IsInvoke() {
 			cname = common.Method.Name()
+		} else if common != nil {
+			// a call of a function value held in a parameter or a local variable: counted under its name
+			switch x := common.Value.(type) {
+			case *ssa.Parameter:
+				cname = x.Name()
+			case *ssa.UnOp:
+				if a, ok := x.X.(*ssa.Alloc); ok {
+					cname = a.Comment
+				}
+			}
 		}
 		for _, n := range strings.Split(cc, ",") {
 			if cname != "" && strings.TrimSpace(n) == cname {
